@@ -69,6 +69,45 @@ Theorem C04_gen_sinks_escaped : forall (fn : bytes) (f : file),
 Proof. exact gen_sinks_escaped. Qed.
 Print Assumptions C04_gen_sinks_escaped.
 
+(* POSITION in the attribute tree.  The writer does not depend on where the attribute stands among the attributes of
+   its element: attr_at d a l (proofs/UrlSinkNestedProof.v) says that a stands in l at top level (d = 0), or in the
+   then-branch or the else-branch of a conditional attribute of l, recursively, under d nested if / else blocks, with
+   any attributes (spreads, constants, other expressions, other conditionals) before and after it at every level.  For
+   EVERY such position the operations of the whole attribute list contain the group of name={ e } with the kind decided by
+   (elem, name) alone - elem being the element the list belongs to, at every depth (context Some elem of Sunk) - written
+   at indentation lvl + d.  (d < f: the generator model runs the attribute writer with fuel 50, Gen.write_node.) *)
+From V Require Import proofs.UrlSinkNestedProof.
+Theorem C04_generated_attr_sink_nested : forall (f lvl : nat) (elem : bytes) (l : list attr) (g : Gen.gst) (d : nat) (n : bytes) (e : expr),
+  attr_at d (AExpr n e) l -> d < f ->
+  exists (ops pre post : list op) (v : nat) (fn : bytes),
+    same (Gen.write_attrs f lvl elem l g) (replay ops g) /\
+    Sunk (Some elem) (Gen.vid g) (Gen.vid (Gen.write_attrs f lvl elem l g)) ops /\
+    ops = pre ++ ([OL ([x20] ++ Gen.hesc n ++ bs "="); OL (bs "\""")] ++
+                  g_attr (attr_kind elem n) (lvl + d) (vname v) fn e ++ [OL (bs "\""")]) ++ post.
+Proof. exact attr_sink_nested. Qed.
+Print Assumptions C04_generated_attr_sink_nested.
+
+(* ... so href on a / action on form is declared templ.SafeURL and written through templ.EscapeString(string(v)) in the
+   then-branch, in the else-branch and at every depth of nesting, exactly as at top level *)
+Theorem C04_generated_url_sink_nested : forall (f lvl : nat) (elem : bytes) (l : list attr) (g : Gen.gst) (d : nat) (n : bytes) (e : expr),
+  attr_at d (AExpr n e) l -> d < f -> url_sink elem n = true ->
+  exists (ops pre post : list op) (v : nat),
+    same (Gen.write_attrs f lvl elem l g) (replay ops g) /\
+    Sunk (Some elem) (Gen.vid g) (Gen.vid (Gen.write_attrs f lvl elem l g)) ops /\
+    ops = pre ++ ([OL ([x20] ++ Gen.hesc n ++ bs "="); OL (bs "\""")] ++
+                  [OI (lvl + d) (bs "var " ++ vname v ++ bs " templ.SafeURL = "); OE e; OR Gen.nlb;
+                   OI (lvl + d) (bs "_, templ_7745c5c3_Err = templ_7745c5c3_Buffer.WriteString(templ.EscapeString(string(" ++ vname v ++ bs ")))"); OR Gen.nlb] ++
+                  eh (lvl + d) ++ [OL (bs "\""")]) ++ post.
+Proof. exact url_sink_nested. Qed.
+Print Assumptions C04_generated_url_sink_nested.
+
+(* non-vacuity: an href in the else-branch of a conditional that is itself in an else-branch, behind a spread *)
+Example C04_ex_nested_position :
+  attr_at 2 (AExpr (bs "href") (ex_e (bs "u")))
+    [AConst (bs "class") (bs "k"); ACond (ex_e (bs "c1")) [AExpr (bs "title") (ex_e (bs "s"))]
+       [ASpread (ex_e (bs "sp")); ACond (ex_e (bs "c2")) [] [AExpr (bs "href") (ex_e (bs "u"))]]].
+Proof. exact ex_nested_at. Qed.
+
 Example C04_ex_kinds :
   attr_kind (bs "a") (bs "href") = KUrl /\ attr_kind (bs "A") (bs "HREF") = KUrl /\ attr_kind (bs "form") (bs "action") = KUrl /\
   attr_kind (bs "div") (bs "href") = KDefault /\ attr_kind (bs "button") (bs "onclick") = KOn /\ attr_kind (bs "p") (bs "style") = KStyle.
